@@ -2970,7 +2970,10 @@ constexpr bool is_constant_evaluated() noexcept
     // it's possible to use `__builtin_is_constant_evaluated` with lower C++
     // versions but I see no reason for this since it's only used for
     // `assign_string` and other accessors are not be `constexpr` until C++20
-#if SBEPP_HAS_IS_CONSTANT_EVALUATED
+#if defined(SBEPP_VERIF) && defined(SBEPP_VERIF_CONSTANT_EVALUATED)
+    // verification hook: constant-evaluation-only branches become ordinary code
+    return true;
+#elif SBEPP_HAS_IS_CONSTANT_EVALUATED
     return std::is_constant_evaluated();
 #else
     return false;
